@@ -2,7 +2,7 @@
 from .. import tables
 from ..callgraph import norm
 from ..cfg import Cfg, reach
-from ..common import body_by_name, callee_names, const_value_of, family, impl_methods, switch_atom
+from ..common import body_by_name, callee_names, const_value_of, family, impl_methods, op_int, switch_atom
 from ..facts import callee, const_int, const_str, op_const, op_local, op_place
 from ..flow import Flow, identity_through
 from ..inline import inlined, same_impl_helpers
@@ -251,7 +251,9 @@ def render_rule(rep, prog, cfg):
     for bb in sorted(b.reachable()):
         a = switch_atom(b, bb)
         if a and a["kind"] == "cmp" and a["op"] in ("Eq", "Ne"):
-            k = const_int(op_const(a["rhs"])) if op_const(a["rhs"]) else const_int(op_const(a["lhs"]))
+            k = op_int(b, a["rhs"])
+            if k is None:
+                k = op_int(b, a["lhs"])
             if k == 1:
                 one = (a["true"], a["false"]) if a["op"] == "Eq" else (a["false"], a["true"])
     if one is None:
